@@ -53,7 +53,7 @@ class Array(ElementBase):
         if origin is None:
             origin = f.vector(0, 0, 0)
 
-        normal = np.array(normal)
+        normal = f.unit_vector(normal)
         matrix = f.mirror_matrix(normal)
 
         mirrored_points = np.dot(self.points - origin, matrix.T)
